@@ -22,15 +22,19 @@ package wire
 // ordinary builds.
 
 import (
+	"bytes"
 	"fmt"
 	"go/ast"
 	"go/importer"
 	"go/parser"
+	"go/printer"
 	"go/token"
 	"go/types"
 	"reflect"
 	"sort"
 
+	"golang.org/x/tools/go/ast/astutil"
+	"golang.org/x/tools/go/packages"
 	"golang.org/x/tools/go/types/typeutil"
 )
 
@@ -647,4 +651,102 @@ func VerifASTNodeTypes() []string {
 	}
 	sort.Strings(out)
 	return out
+}
+
+// VerifRenameOcc is one identifier occurrence of a declaration passed through
+// rewritePkgRefs: its name before and after, the go/types object it denotes
+// (numbered in order of first occurrence, -1 for none) and whether that object
+// is one the second pass may rename (declared inside the node, not at package
+// scope, not a field or method).
+type VerifRenameOcc struct {
+	Before string `json:"before"`
+	After  string `json:"after"`
+	Obj    int    `json:"obj"`
+	Local  bool   `json:"local"`
+}
+
+// VerifRenameProbe type-checks the single-file package src, passes the function
+// declaration named fn through the real rewritePkgRefs of a generator whose file
+// scope additionally holds the given import names, and reports the identifier
+// occurrences in traversal order, the names of the file scope and the printed
+// result.
+func VerifRenameProbe(src, fn string, imports []string) (occs []VerifRenameOcc, scope []string, printed string, msg string) {
+	defer func() {
+		if r := recover(); r != nil {
+			occs, msg = nil, "PANIC: "+fmt.Sprint(r)
+		}
+	}()
+	fset := token.NewFileSet()
+	f, err := parser.ParseFile(fset, "p.go", src, 0)
+	if err != nil {
+		return nil, nil, "", "parse: " + err.Error()
+	}
+	info := &types.Info{
+		Types:  make(map[ast.Expr]types.TypeAndValue),
+		Defs:   make(map[*ast.Ident]types.Object),
+		Uses:   make(map[*ast.Ident]types.Object),
+		Scopes: make(map[ast.Node]*types.Scope),
+	}
+	conf := types.Config{Importer: importer.Default()}
+	tpkg, err := conf.Check("p", fset, []*ast.File{f}, info)
+	if err != nil {
+		return nil, nil, "", "check: " + err.Error()
+	}
+	var node ast.Node
+	for _, d := range f.Decls {
+		if fd, ok := d.(*ast.FuncDecl); ok && fd.Name.Name == fn {
+			node = fd
+		}
+	}
+	if node == nil {
+		return nil, nil, "", "no function " + fn
+	}
+	g := newGen(&packages.Package{PkgPath: "p", Name: "p", Fset: fset, Types: tpkg, TypesInfo: info, Syntax: []*ast.File{f}})
+	for _, n := range imports {
+		g.imports["verif/"+n] = importInfo{name: n}
+	}
+	pkgScope := tpkg.Scope()
+	start, end := node.Pos(), node.End()
+	ids := make(map[types.Object]int)
+	astutil.Apply(node, func(c *astutil.Cursor) bool {
+		id, ok := c.Node().(*ast.Ident)
+		if !ok {
+			return true
+		}
+		o := VerifRenameOcc{Before: id.Name, Obj: -1}
+		if obj := info.ObjectOf(id); obj != nil {
+			n, seen := ids[obj]
+			if !seen {
+				n = len(ids)
+				ids[obj] = n
+			}
+			o.Obj = n
+			par := obj.Parent()
+			o.Local = par != nil && par != pkgScope && start <= obj.Pos() && obj.Pos() < end
+		}
+		occs = append(occs, o)
+		return true
+	}, nil)
+	out := g.rewritePkgRefs(info, node)
+	i := 0
+	astutil.Apply(out, func(c *astutil.Cursor) bool {
+		if id, ok := c.Node().(*ast.Ident); ok {
+			if i < len(occs) {
+				occs[i].After = id.Name
+			}
+			i++
+		}
+		return true
+	}, nil)
+	if i != len(occs) {
+		return nil, nil, "", fmt.Sprintf("misaligned: %d identifiers before, %d after", len(occs), i)
+	}
+	scope = append(scope, imports...)
+	scope = append(scope, pkgScope.Names()...)
+	scope = append(scope, types.Universe.Names()...)
+	var buf bytes.Buffer
+	if err := printer.Fprint(&buf, fset, out); err != nil {
+		return nil, nil, "", "print: " + err.Error()
+	}
+	return occs, scope, buf.String(), ""
 }
